@@ -10,6 +10,7 @@ CONSTANTS
   One = 2
   Names <- NoIdx
   CondIdx <- BaseConds
+  ElifIdx <- BaseConds
   DefIdx <- NoIdx
   TextIdx <- DirTexts
   MaxLines = 4
